@@ -153,7 +153,7 @@ def receiver_family_contract(fv, cname, meth):
 
 
 # ---------------------------------------------------------------- contract application
-def bind_args(fv, c, node, st, spec, recv, fdef=None):
+def bind_args(fv, c, node, st, spec, recv, closure=False):
     params = list(c.params)
     vals = {}
     pos = [fv.ev(a, st, spec) for a in node.args]
@@ -172,7 +172,9 @@ def bind_args(fv, c, node, st, spec, recv, fdef=None):
     if missing:
         defaults = callee_defaults(fv, c)
         for pn in missing:
-            if pn in defaults:
+            if closure and pn in st.env:
+                vals[pn] = st.env[pn]
+            elif pn in defaults:
                 vals[pn] = fv.ev(defaults[pn], State(), True) if not isinstance(defaults[pn], SV) else defaults[pn]
             elif pn in fv.E.sc.contracts[c.qual].opts.get('ghost_params', '').split(','):
                 continue
@@ -247,7 +249,8 @@ def ensure_pure_axiom(fv, c, closure_env=None):
     pre = [sub.truthy(sub.ev(e, st, True)) for _, e in c.requires]
     post = [sub.truthy(sub.ev(e, st, True)) for _, e in c.ensures]
     rt = sub.typed_fact(app, rty) if zsort(rty) == P.V else z3.BoolVal(True)
-    body = z3.Implies(z3.And(*(tf + pre)) if (tf + pre) else z3.BoolVal(True), z3.And(*(post + [rt])))
+    body = z3.Implies(z3.And(*(tf + pre)) if (tf + pre) else z3.BoolVal(True),
+                      z3.And(*(post + [rt] + sub.deep_facts(app, rty))))
     ax = z3.ForAll(vars_, body, patterns=[app]) if vars_ else body
     fv.local_axioms.append(ax)
     fv.local_axioms.extend(sub.local_axioms)
@@ -264,7 +267,7 @@ def callee_module(fv, c):
 def apply_contract(fv, c, node, st, spec, recv, closure=False):
     E = fv.E
     fv.used_contracts.add(c.qual)
-    vals = bind_args(fv, c, node, st, spec, recv)
+    vals = bind_args(fv, c, node, st, spec, recv, closure)
     sub = type(fv)(E, c.qual, None, c, module=callee_module(fv, c))
     sub.binders = fv.binders
     sub.bound_env = fv.bound_env
@@ -559,6 +562,8 @@ def quant_over(fv, node, st, spec, is_all):
         return quantify_comp(fv, arg, st, spec, is_all)
     v = fv.ev(arg, st, spec)
     seq, ety = fv.iter_seq(v, node, st, spec)
+    if not spec:
+        fv.note_term(st, seq)
     i = z3.Int('i!q%d' % next(fv.E.counter))
     el = unbox(P.at(seq, i), ety)
     body = fv.truthy(el)
@@ -796,7 +801,7 @@ def map_method(fv, node, st, spec, recv, meth):
             return SV(z3.If(P.has(m, kt), unbox(val, rty).term, coerce(d, rty).term), rty)
         res = SV(z3.If(P.has(m, kt), val, box(coerce(d, rty))), rty)
         tf = z3.Implies(P.has(m, kt), fv.typed_fact(val, vty))
-        if not fv.binders and not z3.is_true(tf):
+        if not fv.binders and not z3.is_true(tf) and not spec and not fv.bound_env:
             fv.add_fact(st, tf)
         return res
     if meth == 'keys':
